@@ -1378,33 +1378,36 @@ def check_for_errors(result):
 
     if "error" in result and result["error"]:
         # Server-side error
-        if "code" in result["error"]:
+        error = result["error"]
+        if isinstance(error, utils.DictType) and "code" in error:
             # Code + Message
-            code = result["error"]["code"]
+            code = error["code"]
             try:
                 # Get the message (jsonrpclib)
-                message = result["error"]["message"]
+                message = error["message"]
             except KeyError:
                 # Get the trace (jabsorb)
-                message = result["error"].get("trace", "<no error message>")
+                message = error.get("trace", "<no error message>")
 
-            if -32700 <= code <= -32000:
+            if (
+                isinstance(code, utils.NUMERIC_TYPES)
+                and -32700 <= code <= -32000
+            ):
                 # Pre-defined errors
                 # See http://www.jsonrpc.org/specification#error_object
                 raise ProtocolError((code, message))
             else:
                 # Application error
-                data = result["error"].get("data", None)
+                data = error.get("data", None)
                 raise AppError((code, message, data))
 
-        elif isinstance(result["error"], dict) and len(result["error"]) == 1:
+        elif isinstance(error, utils.DictType) and len(error) == 1:
             # Error with a single entry ('reason', ...): use its content
-            error_key = result["error"].keys()[0]
-            raise ProtocolError(result["error"][error_key])
+            raise ProtocolError(list(error.values())[0])
 
         else:
             # Use the raw error content
-            raise ProtocolError(result["error"])
+            raise ProtocolError(error)
 
     return result
 
